@@ -70,6 +70,10 @@ CHECKS = {
                      "SIGTERM/SIGINT to the real daemon binary in each phase and checks exit status, absence of a Go panic trace and the same final-state predicate.",
                 note="Trusted base: harness, virtual driver (refuse = error without effect, ignore = success without effect, stick = other value stored), gosensors stand-in; the "
                      "controller's fixed waits are divided by a time scale (tick rates unchanged). SIGKILL / power loss are outside the statement."),
+    "C09": dict(level="fault_enumeration", ref="5 (C09)", technique="runtime monitor: crash monitor (child process per batch) plus liveness-or-restored oracle under enumerated I/O faults on a running closed loop",
+                text="Single faults and pairs (component x kind x first hit x duration) are injected at the I/O boundary of a running controller + sensor monitor for every fan backend x "
+                     "sensor backend x curve type; the process must survive and afterwards either keep evaluating the curve or have handed the fan back (C03 predicate).",
+                note="Trusted base: harness, virtual driver, scripts for cmd backends; faults during the initial analysis are outside the statement ('at any control cycle') and not injected."),
 }
 
 
